@@ -2,6 +2,8 @@ package corpus
 
 import (
 	"fmt"
+	"google.golang.org/protobuf/proto"
+	"google.golang.org/protobuf/types/descriptorpb"
 )
 
 // field numbers whose keys take 1..5 bytes
@@ -241,6 +243,42 @@ func AtomUnits() []*Unit {
 			u := b.Unit()
 			u.SpecialNames = []string{"Size", "ProtoSize", "Equal", "GoString", "VerboseEqual", "MarshalTo"}
 			u.NoGV2 = true
+			us = append(us, u)
+		}
+		// ---- types imported from another generated file whose Go package name is not the last element of its path
+		for _, withEnum := range []bool{false, true} {
+			name, group := p+"importdep", "import-dep"
+			if withEnum {
+				// separate unit: protobuf-go's legacy wrapper (which the harness bridge needs for gogo types) cannot
+				// load a gogo message with an enum field imported from another gogo package; see genwl.targets
+				name, group = p+"importdepenum", "import-dep-enum"
+			}
+			b := NewUnit(name, syntax, group).Atom("import-of-package-with-explicit-name")
+			depPkg := "verif." + name + "dep"
+			dep := &descriptorpb.FileDescriptorProto{Name: proto.String(name + "_dep.proto"), Package: proto.String(depPkg)}
+			if syntax == "proto3" {
+				dep.Syntax = proto.String("proto3")
+			}
+			lbl := descriptorpb.FieldDescriptorProto_LABEL_OPTIONAL
+			dep.MessageType = []*descriptorpb.DescriptorProto{{Name: proto.String("Thing"), Field: []*descriptorpb.FieldDescriptorProto{
+				{Name: proto.String("id"), Number: proto.Int32(1), Type: Int32.Enum(), Label: lbl.Enum()},
+				{Name: proto.String("label"), Number: proto.Int32(2), Type: String.Enum(), Label: lbl.Enum()},
+			}}}
+			dep.EnumType = []*descriptorpb.EnumDescriptorProto{{Name: proto.String("Grade"), Value: []*descriptorpb.EnumValueDescriptorProto{
+				{Name: proto.String("GRADE_ZERO"), Number: proto.Int32(0)}, {Name: proto.String("GRADE_ONE"), Number: proto.Int32(1)}, {Name: proto.String("GRADE_NEG"), Number: proto.Int32(-3)},
+			}}}
+			b.Import(dep.GetName())
+			m := b.Msg("User")
+			m.F("name", 1, String, Optional)
+			m.FMsg("thing", 2, "."+depPkg+".Thing", Optional)
+			if withEnum {
+				m.FEnum("grade", 4, "."+depPkg+".Grade", Optional).FEnum("grades", 5, "."+depPkg+".Grade", Repeated)
+			} else {
+				m.FMsg("things", 3, "."+depPkg+".Thing", Repeated)
+				m.Map("by_name", 6, String, Message, "."+depPkg+".Thing")
+			}
+			u := b.Unit()
+			u.Dep = dep
 			us = append(us, u)
 		}
 		// ---- messages whose short names are equal (filepermessage output names)
